@@ -5,6 +5,7 @@ use idlc_ast_passes::{cycles, functions, idl_store::IDLStore, struct_verifier, C
 use idlc_codegen::{Descriptor, Generator};
 use idlc_errors::trace;
 use idlc_mir::mir;
+use idlc_mir_passes::{interface_verifier, MirCompilerPass};
 
 #[derive(Debug, Clone, Copy, PartialEq, Eq)]
 pub enum Language {
@@ -33,6 +34,9 @@ impl Language {
         struct_verifier::StructVerifier::run_pass(&idl_store, &struct_ordering)?;
 
         let mir = mir::parse_to_mir(&ast, &mut idl_store);
+
+        trace!("Verifying interfaces");
+        interface_verifier::InterfaceVerifier::new(&mir).run_pass();
 
         match self {
             Self::Rust => Ok(idlc_codegen_rust::Generator::generate(&mir)),
